@@ -7,6 +7,7 @@ import Blue.Proofs.ManiApi
 import Blue.Proofs.ManiChain
 import Blue.Proofs.ManiReopen
 import Blue.Proofs.ManiOpenBytes
+import Blue.Proofs.ManiLock
 import Blue.Proofs.ConstsTieC13
 /-! # Property C13 — manifest edits are atomic and durable; reopening replays exactly those applied
 
@@ -261,6 +262,46 @@ theorem mutant_rename_before_sync_loses {St E : Type} (A : Algebra St E) (e roll
       [.linkBackup, .tmpClear, .tmpWrite roll, .rename]) = A.empty :=
   rename_before_sync_loses A e roll
 
+/-! ## two processes: the lock file -/
+
+/-- `Manifest::open` reads MANIFEST after LOCKFILE is held (`translate/extract.py` on mani/src/lib.rs) -/
+theorem open_reads_under_lock_from_source : Blue.Generated.maniOpenReadsUnderLock = 1 :=
+  Blue.ConstsTie.mani_open_reads_under_lock
+
+/-- **`open_reads_under_lock`**: a second process calls `Manifest::open` while the first holds the
+    lock and has to wait (`Lockfile::wait`, as the crate's tools do); the first process issues any
+    calls meanwhile — edits whose `apply` returns, rollovers — and drops its handle.  The state
+    the second process's handle holds, and the state its open-time rollover leaves in MANIFEST, is
+    the state MANIFEST replays to when the lock changes hands: exactly the edits applied. -/
+theorem open_reads_under_lock {St E : Type} (A : Algebra St E) (hlaw : Lawful A) (fs : Fs E) (during : List (Op E)) :
+    (Blue.ManiLock.waiterOpen A false fs during).2 = Blue.ManiLock.readMani A (run fs during)
+    ∧ recoverA A (Blue.ManiLock.waiterOpen A false fs during).1 = Blue.ManiLock.readMani A (run fs during) :=
+  Blue.ManiLock.open_reads_under_lock A hlaw fs during
+
+/-- **the reordered open** (`read_mani` above the lock acquisition): the waiting opener holds, and
+    rolls over, the state from before the holder's calls -/
+theorem stale_open_state {St E : Type} (A : Algebra St E) (hlaw : Lawful A) (fs : Fs E) (during : List (Op E))
+    (hne : ((run fs during).mani.durable ++ (run fs during).mani.pending).isEmpty = false) :
+    (Blue.ManiLock.waiterOpen A true fs during).2 = Blue.ManiLock.readMani A fs
+    ∧ recoverA A (Blue.ManiLock.waiterOpen A true fs during).1 = Blue.ManiLock.readMani A fs :=
+  Blue.ManiLock.stale_open_state A hlaw fs during hne
+
+/-- the counterexample (and the non-vacuity of the two): the holder applied `[1]`; while the second
+    process waits it applies `[2]` and `[3]` — two acknowledgements; as the code is both the handle
+    and the directory end at `[1, 2, 3]`, with the reordered open at `[1]`, and the new MANIFEST
+    (`[[1]]`) does not start with the roll-up of the backup it was linked from (`[[1],[2],[3]]`) -/
+theorem stale_open_loses_edits :
+    acked Blue.ManiLock.meanwhile = 2
+    ∧ (Blue.ManiLock.waiterOpen Blue.ManiLock.listAlgebra false Blue.ManiLock.held Blue.ManiLock.meanwhile).2 = [1, 2, 3]
+    ∧ recoverA Blue.ManiLock.listAlgebra (Blue.ManiLock.waiterOpen Blue.ManiLock.listAlgebra false Blue.ManiLock.held Blue.ManiLock.meanwhile).1 = [1, 2, 3]
+    ∧ (Blue.ManiLock.waiterOpen Blue.ManiLock.listAlgebra true Blue.ManiLock.held Blue.ManiLock.meanwhile).2 = [1]
+    ∧ recoverA Blue.ManiLock.listAlgebra (Blue.ManiLock.waiterOpen Blue.ManiLock.listAlgebra true Blue.ManiLock.held Blue.ManiLock.meanwhile).1 = [1]
+    ∧ (Blue.ManiLock.waiterOpen Blue.ManiLock.listAlgebra true Blue.ManiLock.held Blue.ManiLock.meanwhile).1.backups = [[[1], [2], [3]]]
+    ∧ (Blue.ManiLock.waiterOpen Blue.ManiLock.listAlgebra true Blue.ManiLock.held Blue.ManiLock.meanwhile).1.mani.durable = [[1]] :=
+  Blue.ManiLock.stale_open_loses_edits
+
+example : Lawful Blue.ManiLock.listAlgebra := Blue.ManiLock.listAlgebra_lawful
+
 /-! ## non-vacuity -/
 
 /-- an edit with a removal, two additions (one holding `\r` and NUL inside) and an info meets `Edit.Ok`,
@@ -347,3 +388,7 @@ end Blue.Props.C13
 #print axioms Blue.Props.C13.repaired_api_refuses
 #print axioms Blue.Props.C13.as_is_crash_in_rollover_breaks_chain
 #print axioms Blue.Props.C13.mutant_rename_before_sync_loses
+#print axioms Blue.Props.C13.open_reads_under_lock_from_source
+#print axioms Blue.Props.C13.open_reads_under_lock
+#print axioms Blue.Props.C13.stale_open_state
+#print axioms Blue.Props.C13.stale_open_loses_edits
